@@ -292,26 +292,6 @@ def oracle_compare(subs_js, nq, script, state, debug=False):
     return None
 
 
-# ---------------------------------------------------------------- gate-level probes (C07's findings)
-
-def probe_gate_findings():
-    """Model-free probes of the two C07 defects that would otherwise surface in the C08 oracle:
-    F8 (S, T expand to their adjoints) and F9 (nv crot_y publishes an X-axis matrix)."""
-    out = {"F8": False, "F9": False}
-    from netqasm.util.quantum_gates import get_controlled_rotation_matrix
-    m = nv.ControlledRotYInstruction(reg0=op.Register(RegisterName.Q, 0), reg1=op.Register(RegisterName.Q, 1),
-                                     imm0=op.Immediate(8), imm1=op.Immediate(4)).to_matrix()
-    if not np.allclose(m, get_controlled_rotation_matrix([0, 1, 0], np.pi / 2)):
-        out["F9"] = True
-    for cname in ("vanilla.GateSInstruction", "vanilla.GateTInstruction"):
-        js = [ins("core.SetInstruction", reg(Q, 0), imm(0)), ins(cname, reg(Q, 0))]
-        st = np.array([0.6, 0.8j])
-        r = oracle_compare([js], 1, [0], st)
-        if r is not None:
-            out["F8"] = True
-    return out
-
-
 # ---------------------------------------------------------------- generators
 
 GATE1 = ["vanilla.GateXInstruction", "vanilla.GateYInstruction", "vanilla.GateZInstruction",
@@ -428,6 +408,16 @@ class ProgGen:
             qa = self.qreg()
             qb = self.qreg(avoid=(qa,))
             # the NV circuits implement "move into a |0> target; source is left to be freed"
+            if rng.random() < 0.35:
+                # the SDK's multi-pair EPR shape: ids in R registers, unknown to the pass
+                # (`sub R3 ..; set R4 0; mov R4 R3; qfree R4`)
+                self.emit("core.SetInstruction", reg(R, 6), imm(b))
+                self.emit("core.InitInstruction", reg(R, 6))
+                self.emit("core.SetInstruction", reg(R, 7), imm(a))
+                self.emit("vanilla.MovInstruction", reg(R, 7), reg(R, 6))
+                self.emit("core.InitInstruction", reg(R, 7))
+                self.features.add("mov-runtime-ids")
+                return
             self.emit("core.SetInstruction", reg(Q, qb), imm(b))
             self.emit("core.InitInstruction", reg(Q, qb))
             self.put_id(qa, a)
@@ -525,6 +515,33 @@ def has_nonset_q_write_reaching_gate(js):
     return False
 
 
+def nonq_two_qubit_gate(js):
+    """F10's second recorded feature: a cnot/cphase names a register that is not a Q register
+    (the pass has no value for it and asserts)."""
+    for j in js:
+        if j["c"] in ("vanilla.CnotInstruction", "vanilla.CphaseInstruction"):
+            if any("r" in o and o["r"][0] != Q for o in j["o"]):
+                return True
+    return False
+
+
+def nonq_to_q(js):
+    """the delta for that feature: the same program with those gate operands (and the `set`s that
+    define them) moved to the Q registers of the same index"""
+    regs = set()
+    for j in js:
+        if j["c"] in ("vanilla.CnotInstruction", "vanilla.CphaseInstruction"):
+            regs |= {tuple(o["r"]) for o in j["o"] if "r" in o and o["r"][0] != Q}
+    out = []
+    for j in js:
+        if j["c"] in ("vanilla.CnotInstruction", "vanilla.CphaseInstruction", "core.SetInstruction"):
+            out.append({"c": j["c"], "o": [reg(Q, o["r"][1]) if "r" in o and tuple(o["r"]) in regs else o
+                                           for o in j["o"]]})
+        else:
+            out.append(j)
+    return out
+
+
 def soup(rng, n):
     """Unstructured instruction soup for the syntactic stream (not meant to be executable): any
     vanilla class, arbitrary targets (also out of range), gates on registers that may be unset,
@@ -585,7 +602,7 @@ class _Recorder:
         return out
 
 
-def sdk_program(rng, nq, no_st=False):
+def sdk_program(rng, nq):
     """A random host program on the real SDK (NV compiler selected); returns the list of
     (vanilla subroutine JSON, real transpiler result) per flushed subroutine, or None if the SDK
     itself rejected the program."""
@@ -604,8 +621,6 @@ def sdk_program(rng, nq, no_st=False):
             def gate():
                 q = rng.choice(qs)
                 k = rng.randrange(12)
-                if no_st and k in (5, 6):
-                    k = rng.randrange(5)
                 if k < 7:
                     getattr(q, "XYZHKST"[k])()
                 elif k < 10:
